@@ -318,7 +318,10 @@ d, seed, mode = sys.argv[1], sys.argv[2], sys.argv[3]
 r = random.Random(seed)
 resource.setrlimit(resource.RLIMIT_NOFILE, (40, 40))
 emfile = 0
-real_open = gzip.open
+# the descriptor shortage is observed where every way of opening a file ends up: at the built-in open (gzip.open, gzip.GzipFile and plain open
+# all go through it), not at a function of the module under test
+import builtins
+real_open = builtins.open
 def counting_open(*a, **k):
     global emfile
     try:
@@ -327,11 +330,7 @@ def counting_open(*a, **k):
         if e.errno == 24:
             emfile += 1
         raise
-import singlecellmultiomics.pyutils.handlelimiter as hm
-class G:
-    open = staticmethod(counting_open)
-    def __getattr__(self, n): return getattr(gzip, n)
-hm.gzip = G()
+builtins.open = counting_open
 hist = {}
 raised = []
 if mode == 'limiter':
@@ -366,6 +365,7 @@ else:
             raised.append([k, str(cell), repr(e)])
     with contextlib.redirect_stdout(io.StringIO()):
         fh.close()
+builtins.open = real_open
 resource.setrlimit(resource.RLIMIT_NOFILE, (40, 40))
 json.dump({'hist': hist, 'raised': raised, 'emfile': emfile}, open(os.path.join(d, 'result.json'), 'w'))
 '''
